@@ -102,8 +102,10 @@ func (blockExec *BlockExecutor) CreateProposalBlock(
 
 	evidence, evSize := blockExec.evpool.PendingEvidence(state.ConsensusParams.Evidence.MaxBytes)
 
-	// Fetch a limited amount of valid txs
-	maxDataBytes := types.MaxDataBytes(maxBytes, evSize, state.Validators.Size())
+	// Fetch a limited amount of valid txs. The commit that goes into the block
+	// is the last commit: it has one signature slot per validator of the
+	// previous height, not of this one.
+	maxDataBytes := types.MaxDataBytes(maxBytes, evSize, state.LastValidators.Size())
 
 	txs := blockExec.mempool.ReapMaxBytesMaxGas(maxDataBytes, maxGas)
 
